@@ -915,5 +915,13 @@ Definition run (c : obs) : obs :=
                    (fun lim => obs_of_res B (to_wire m o lim reqp (prefer =? 1) pad)) None)
       | _, _ => E eBadObs
       end
+  | L [I 6; m; o; L lims; I reqp; I prefer; I pad] =>
+      match msg_of_obs m, oname_of_obs o with
+      | Some m, Some o =>
+          L (map (fun l => match l with
+                           | I lim => obs_of_res B (to_wire m o lim reqp (prefer =? 1) pad)
+                           | _ => E eBadObs end) lims)
+      | _, _ => E eBadObs
+      end
   | _ => E eBadObs
   end.
